@@ -1,6 +1,6 @@
 import Zc.Model.BrowserReentrant
 import Zc.Proofs.Reentrant
-/-! The completion loop of a browser whose handlers re-enter the record manager (`Zc/Model/BrowserReentrant.lean`, D25). -/
+/-! The completion loop of a browser whose handlers re-enter the record manager (`Zc/Model/BrowserReentrant.lean`, D24b). -/
 namespace Zc
 
 /-! ### the loop, generic in the state the handlers run on -/
@@ -85,7 +85,7 @@ theorem HostR.OK.setPending {S : HostR} (h : HostR.OK lower S) (bid : Nat) (p : 
 theorem updateAllR_ok {S : HostR} (h : HostR.OK lower S) (depth : Nat) (now : Ms) (us : List (Rec × Option Rec)) :
     HostR.OK lower (updateAllR lower possible depth now us S) := h
 
-/-- **with the repair no handler plan can make the completion rounds raise** (D25): on a sound cache, browsers whose service
+/-- **with the repair no handler plan can make the completion rounds raise** (D24b): on a sound cache, browsers whose service
 handlers create browsers — each creation purging the expired records and running its own nested rounds over every listener, the
 creating browser included, to any nesting depth — deliver their callbacks without an exception, and the cache stays sound -/
 theorem hostR_ok (fuel : Nat) :
